@@ -11,6 +11,9 @@ CONSTANTS
   MidCrash = TRUE
   Timeouts = FALSE
   MaxWriteFaults = 2
+  MaxReadFaults = 0
+  ReadKinds = {}
+  ReadFix = FALSE
 INVARIANT ContainerOK
 INVARIANT TopIsHeight
 INVARIANT StorageShape
